@@ -73,6 +73,12 @@ def run_symx(prop, tier, seed, spec):
         part["ok"] = False
         part["inconclusive"].append("encoder: %s" % str(e)[-3000:])
         return part
+    st = numerics_selftest(sbin)
+    part["numerics_selftest"] = st
+    if not st.get("ok"):
+        part["ok"] = False
+        part["inconclusive"].append("numerics self-test failed (symbolic operators disagree with the real cosmwasm-std): %s" % json.dumps(st)[:600])
+        return part
     out = os.path.join(gen.CACHE, "out-%s-%s-%d.json" % (prop, tier, os.getpid()))
     threads = int(os.environ.get("SYMX_THREADS", str(NCPU)))
     timeout_ms = spec.get("timeout_ms", {}).get(tier, 10000)
@@ -127,6 +133,7 @@ def run_symx(prop, tier, seed, spec):
             "solver": doc.get("solver"),
             "solver_timeout_ms": timeout_ms,
             "threads": threads,
+            "numerics_selftest": st,
         }
     )
     # ---- counterexamples: dedupe, replay on the real build
@@ -179,6 +186,38 @@ def run_symx(prop, tier, seed, spec):
                 os.remove(b)
     part["wall_s"] = round(time.time() - t0, 1)
     return part
+
+
+def numerics_selftest(sbin):
+    """symbolic operators (constant and symbolic-pinned operands) vs the real cosmwasm-std, line by line"""
+    try:
+        _, rbin = gen.prepare("r")
+    except gen.EncoderError as e:
+        return {"ok": False, "why": "replay build failed: %s" % str(e)[-800:]}
+    out = os.path.join(gen.CACHE, "num-%d.txt" % os.getpid())
+    try:
+        p1 = subprocess.run([sbin, "NUM", "--threads", str(NCPU), "--out", out], stdout=subprocess.PIPE, stderr=subprocess.PIPE, text=True, timeout=600)
+        p2 = subprocess.run([rbin, "NUM"], stdout=subprocess.PIPE, stderr=subprocess.PIPE, text=True, timeout=600)
+        real = {}
+        for l in p2.stdout.splitlines():
+            k, _, v = l.partition(" ")
+            real[k] = v
+        n = bad = 0
+        first = None
+        for l in open(out).read().splitlines():
+            mode, _, rest = l.partition(" ")
+            k, _, v = rest.partition(" ")
+            n += 1
+            if real.get(k) != v:
+                bad += 1
+                first = first or "%s %s: symbolic %s, real %s" % (mode, k, v, real.get(k))
+        return {"ok": bad == 0 and n > 1000, "cases": n, "mismatches": bad, "first_mismatch": first}
+    except Exception as e:  # noqa
+        return {"ok": False, "why": str(e)}
+    finally:
+        for f in (out, rbin):
+            if os.path.exists(f):
+                os.remove(f)
 
 
 def run_replay(rbin, prop, path):
